@@ -63,7 +63,7 @@ func checkC16(c *Check) {
 	c.Rule("R1m", "every field-map literal with smtp_code and smtp_enchcode: same coherence", 1)
 	c16Literals(c)
 
-	c.Rule("R1f", "an SMTP error built from a literal and adjusted afterwards stays coherent: a store of a constant basic code into the error is accompanied, in the same statement list, by a store of the enhanced code (whole or class digit) into the SAME variable – unless the literal leaves the enhanced code unset", 2)
+	c.Rule("R1f", "an SMTP error built from a literal and adjusted afterwards stays coherent: a store of a constant basic code into the error is accompanied, in the same statement list, by a store of the enhanced code (whole or class digit) into the SAME variable – unless the literal leaves the enhanced code unset", 1)
 	c16InPlace(c)
 
 	c.Rule("R2", "helpers: SMTPCode returns its temporary argument exactly on the IsTemporary edge; SMTPEnchCode yields class 4 on that edge and class 5 otherwise", 2)
